@@ -1,10 +1,14 @@
 (** * CasesBook: evaluation helpers for the C19 / C20 correspondence runs. *)
-From Coq Require Import NArith List Bool.
-From FG Require Import BookModel CacheModel.
+From Coq Require Import NArith List Bool String.
+From FG Require Import CasesLib BookModel CacheModel BookLegal.
 Import ListNotations.
 
-Definition book_case (c : N * list (list (N*N*N)) * list (N*N*list (N*N))) : bool :=
-  let '(root, games, observed) := c in book_case_ok root games observed.
+(* (root key, recorded steps per game, real book entries, coordinate tokens per game as the Simple
+   file carries them, FENs of the positions the engine visited): BookModel.book_case_ok and the
+   per-book collision / step / position check BookLegal.book_visited_case_ok *)
+Definition book_case (c : N * list (list (N*N*N)) * list (N*N*list (N*N)) * list (list string) * list string) : bool :=
+  let '(root, games, observed, toks, fens) := c in
+  book_case_full_ok root games observed (map (map str_of_string) toks) (map str_of_string fens).
 Fixpoint mismb {A} (ok : A -> bool) (i : nat) (l : list A) : list nat :=
   match l with [] => [] | c :: r => (if ok c then [] else [i]) ++ mismb ok (S i) r end.
 Definition book_mismatches := mismb book_case 0.
